@@ -201,7 +201,7 @@ def run(ctx):
                 c = make_case(rng, ctx, ek, 0, fixed=(fixed[ek], sts))
                 c["sch_ref"] = "fx_" + ek
                 cases.append(("corpus", c))
-    for i in range(ctx.budget(450, 10000)):
+    for i in range(ctx.budget(380, 10000)):
         ek = eks[i % len(eks)]
         if i % 3 == 0:
             cases.append(("random-accepted", make_case(rng, ctx, ek, rng.range(1, 5), rich=True, lits=True, wrong=0)))
